@@ -93,6 +93,34 @@ partial def full (names : List (Nat × Str)) : Prec.Expr → String
   | .pre o e => s!"({symText o}{full names e})"
   | .paren e => full names e
 
+/-- finite binary64 as mantissa · 2^exponent -/
+def ratParts (x : Float) : Option (Int × Int) :=
+  let b := x.toBits.toNat
+  let sign : Int := if b / 2 ^ 63 = 1 then -1 else 1
+  let ex : Nat := (b / 2 ^ 52) % 2048
+  let fr : Nat := b % 2 ^ 52
+  if ex = 2047 then none
+  else if ex = 0 then some (sign * (fr : Int), -1074)
+  else some (sign * ((fr + 2 ^ 52 : Nat) : Int), (ex : Int) - 1075)
+
+/-- C `fmod`, exact (the remainder of the two binary64 values as rationals, sign of the dividend; always representable) -/
+def exactFmod (x y : Float) : Float :=
+  match ratParts x, ratParts y with
+  | some (m1, e1), some (m2, e2) =>
+    if m2 == 0 then 0.0 / 0.0 else
+    let e := min e1 e2
+    let X := m1 * (2 : Int) ^ (e1 - e).toNat
+    let Y := m2 * (2 : Int) ^ (e2 - e).toNat
+    let r := Int.tmod X Y
+    if r == 0 then (if m1 < 0 then -0.0 else 0.0) else (Float.ofInt r).scaleB e
+  | some _, none => if y.isInf then x else 0.0 / 0.0
+  | _, _ => 0.0 / 0.0
+
+/-- CPython `float_rem` (Objects/floatobject.c): `fmod`, moved to the sign of the divisor -/
+def pyFloatMod (x y : Float) : Float :=
+  let m := exactFmod x y
+  if m != 0 then (if (y < 0) != (m < 0) then m + y else m) else (if y < 0 then -0.0 else 0.0)
+
 /-- Lean's binary64 `Float` as the interpretation of the abstract float operations (driver only) -/
 def floatOps : FOps Float where
   ofInt := Float.ofInt
@@ -101,8 +129,8 @@ def floatOps : FOps Float where
   mul := (· * ·)
   div := (· / ·)
   neg := fun x => -x
-  fmod := fun x y => if x.isFinite && y.isInf then x else x - (if x / y < 0 then (x / y).ceil else (x / y).floor) * y
-  pyMod := fun x y => x - (x / y).floor * y
+  fmod := exactFmod
+  pyMod := pyFloatMod
   lt := fun x y => x < y
   le := fun x y => x ≤ y
   eq := fun x y => x == y
